@@ -323,16 +323,17 @@ func layout(nodes []any) (items []*item, leadR, trailL bool, err error) {
 	return items, leadR, pendingL, nil
 }
 
+// (a tight spelling still needs a blank where the content itself starts or ends with a hyphen)
 func (p *printer) tag(l bool, content string, r bool) string {
 	s := p.sp.Delims[2]
 	if l {
 		s += "-"
 	}
-	if !p.sp.Tight {
+	if !p.sp.Tight || strings.HasPrefix(content, "-") {
 		s += p.sp.Sp
 	}
 	s += content
-	if !p.sp.Tight {
+	if !p.sp.Tight || strings.HasSuffix(content, "-") {
 		s += p.sp.Sp
 	}
 	if r {
@@ -346,11 +347,11 @@ func (p *printer) object(l bool, content string, r bool) string {
 	if l {
 		s += "-"
 	}
-	if !p.sp.Tight {
+	if !p.sp.Tight || strings.HasPrefix(content, "-") {
 		s += p.sp.Sp
 	}
 	s += content
-	if !p.sp.Tight {
+	if !p.sp.Tight || strings.HasSuffix(content, "-") {
 		s += p.sp.Sp
 	}
 	if r {
